@@ -32,7 +32,12 @@ def pc_op(sc):
 
 
 def harness_scen(sc, kind=None):
-    return {"obj": {"kind": kind or sc["kind"]}, "threads": sc["threads"], "scripts": sc["scripts"], "budget": sc.get("budget", 3000)}
+    obj = {"kind": kind or sc["kind"]}
+    if "scale" in sc:
+        obj["scale"] = sc["scale"]       # float metrics: amounts x scale (a power of two), observed values / scale
+    if "base" in sc:
+        obj["base"] = sc["base"]         # integer gauge: offset (wrapping) so that the scenario sits next to the i64 boundaries
+    return {"obj": obj, "threads": sc["threads"], "scripts": sc["scripts"], "budget": sc.get("budget", 3000)}
 
 
 def check_model(ctx, sc, label, workers=4):
